@@ -700,6 +700,10 @@ def comment_pool(tier):
     for k1, k2 in itertools.product(pair_kws, repeat=2):
         pool.append('@robot %s %s' % (k1, k2))
         pool.append('/%s /%s' % (k1, k2))
+    # several dependencies declared in ONE comment: each of them holds the pull request back (C12)
+    pool += ['@robot after_pull_request=4 after_pull_request=5',
+             '@robot after_pull_request=5 after_pull_request=4',
+             '/after_pull_request=4 /after_pull_request=5']
     sep_pairs = [('wait', 'approve')]
     if thorough:
         sep_pairs += [('bypass_jira_check', 'wait'), ('wait', 'foo'),
